@@ -200,3 +200,18 @@ package labels
 //@   invariant loop 2: keptSize + splitSize == n0 && splitSize == relab
 //@   invariant loop 3: keptSize + splitSize == n0 && splitSize == relab
 //@   assert at "split, err = MakeBlock(lblarrayBytes, pb.Size)": keptSize + splitSize == n0 && splitSize == relab
+
+// DownresSlow (C14 vote mechanics, C10): the receiving block's previous voxels are discarded (start from a
+// zeroed array) only when all eight octants are supplied; otherwise the down-sampling starts from the
+// receiving block's current content, so the region of an absent octant is kept. Each supplied octant is
+// down-sampled into its own eighth (voxel offset = octant bit * half the block size).
+//@ func Block.DownresSlow
+//@   prop C10
+//@   requires b != nil
+//@   safety_off
+//@   calls_havoc
+//@   modifies *
+//@   invariant loop 1: filled && (forall k int :: 0 <= k && k < i ==> octants[k] != nil) && 0 <= i && i <= 8
+//@   assert at "numArrayBytes := b.Size.Prod() * 8": forall k int :: 0 <= k && k < 8 ==> octants[k] != nil
+//@   assert at "result, _ = b.MakeLabelVolume()": exists k int :: 0 <= k && k < 8 && octants[k] == nil
+//@   assert at "downresArray(uint64array, result, vx, vy, vz, size)": octants[i] != nil && vx == ((int32(i) & 1) * b.Size[0]) >> 1 && vy == (((int32(i) >> 1) & 1) * b.Size[1]) >> 1 && vz == (((int32(i) >> 2) & 1) * b.Size[2]) >> 1
